@@ -497,3 +497,31 @@ sc.skip_cross = True
 sc.returns(T.Opaque("rect"))
 sc.ens("the-first-four-numbers-else-all-zero", lambda desc, result: (
     len(result) == 4 and (And(*[eq(result[i], desc._r[i]) for i in range(4)]) if desc._k in ("four-numbers", "five-numbers") else And(*[eq(result[i], 0) for i in range(4)]))))
+
+
+@exhaustive("built-in-metrics-only-for-exact-standard-font-names", props=["C06"],
+            note="FontMetricsDB.get_metrics answers exactly for the keys of FONT_METRICS (with that entry) and raises KeyError for every near miss of every key "
+                 "(subset tag in front, style suffix, other case, surrounding blanks, empty) - so a font that is not one of the standard fonts keeps its own /Widths")
+def _():
+    pf_ = real_module("pdfminer.pdffont")
+    fm = real_module("pdfminer.fontmetrics").FONT_METRICS
+    fails, cases = [], 0
+    for k in fm:
+        cases += 1
+        try:
+            if pf_.FontMetricsDB.get_metrics(k) is not fm[k]:
+                fails.append(dict(name=k, problem="not the table entry"))
+        except KeyError:
+            fails.append(dict(name=k, problem="KeyError for a table key"))
+        for v in ("ABCDEF+" + k, "A+" + k, k + ",Bold", k + "-", k.lower() if k.lower() != k else k.upper(), " " + k, k + " ", k + "+", "+" + k, k[:-1], ""):
+            if v in fm:
+                continue
+            cases += 1
+            try:
+                pf_.FontMetricsDB.get_metrics(v)
+                fails.append(dict(name=v, problem="answered for a name that is not a table key"))
+            except KeyError:
+                pass
+        if len(fails) >= 5:
+            break
+    return dict(cases=cases, failures=fails[:5])
